@@ -196,6 +196,13 @@ impl MSink {
                     "duplicate-attribute",
                     format!("{method}: attribute list contains {:?} twice", a.name),
                 );
+            } else if !a.name.ns.is_empty() && attrs[..k].iter().any(|b| b.name.ns == a.name.ns && b.name.local == a.name.local) {
+                // two names that differ only in the prefix they were written with: in a namespace-aware
+                // attribute list these are one and the same name (Namespaces in XML, section 6.3)
+                self.violate(
+                    "duplicate-attribute-expanded-name",
+                    format!("{method}: attribute list contains two attributes with namespace {:?} and local name {:?} (prefixes differ)", &*a.name.ns, &*a.name.local),
+                );
             }
         }
     }
@@ -876,6 +883,9 @@ impl TreeSink for MSink {
         self.checked("associate-form-kinds");
         if !self.is_elem(target.id) {
             self.violate("associate-non-element", format!("associate_with_form target {}", self.describe(target.id)));
+        } else if !["button", "fieldset", "input", "object", "output", "select", "textarea", "img"].iter().any(|n| self.is_html_named(target.id, n)) {
+            // "the given form-associatable element": an HTML button/fieldset/input/object/output/select/textarea/img
+            self.violate("associate-non-form-associatable", format!("associate_with_form target {} is not a form-associatable HTML element", self.describe(target.id)));
         }
         if !self.is_html_named(form.id, "form") {
             self.violate("associate-non-form", format!("associate_with_form form {}", self.describe(form.id)));
